@@ -232,6 +232,33 @@ def volAltOK (n : ExNode) (p : PodD) (alt : List KExpr) : Bool :=
 def existingCanAddV (n : ExNode) (p : PodD) (alts : List (List KExpr)) : Bool :=
   existingCanAdd n p && (alts.isEmpty || alts.any (volAltOK n p))
 
+/-! ### CSI attach limits (`VolumeUsage.ExceedsLimits` / `Add`, `GetVolumes`)
+
+`VolumeUsage` keeps, per CSI driver, the SET of claims ("namespace/name") in use on the node; `ExceedsLimits` compares the
+size of the UNION of that set with the pod's claims against the limit the node's CSINode reports (all claims of the
+scenario vocabulary belong to one driver). -/
+
+/-- `GetVolumes`: the claims of the pod that resolve to the driver (the claim exists; bound: its PersistentVolume exists;
+    unbound: its StorageClass exists) -/
+def volumeKeys (s : Scenario) (p : Pod) : List String :=
+  p.volumes.filterMap (fun v =>
+    match s.pvc? p.ns v.claim with
+    | none => none
+    | some c =>
+      let counts := if c.volumeName != "" then (s.pv? c.volumeName).isSome
+                    else c.storageClass != "" && (s.storageClass? c.storageClass).isSome
+      if counts then some (p.ns ++ "/" ++ v.claim) else none)
+
+/-- `Volumes.Union` on one driver: set insertion of the pod's claims into the claims in use -/
+def volUnion (used podVols : List String) : List String :=
+  podVols.foldl (fun acc v => if acc.contains v then acc else acc ++ [v]) used
+
+/-- `VolumeUsage.ExceedsLimits` (`true` = the pod is refused) -/
+def exceedsLimits (limit : Option Nat) (used podVols : List String) : Bool :=
+  match limit with
+  | none => false
+  | some l => decide ((volUnion used podVols).length > l)
+
 /-! ## 2. `Scheduler.add` -/
 
 /-- state of a pass: the existing nodes (in the scheduler's order) and the NodeClaims opened so far -/
@@ -349,5 +376,48 @@ def step (st : Sync × List Sync) : Ev → Sync × List Sync
     if ok then (s', st.2 ++ [s']) else (s', st.2)
 
 def run (st : Sync × List Sync) (evs : List Ev) : Sync × List Sync := evs.foldl step st
+
+/-! ## 4. The deletion mark (`Cluster.MarkForDeletion` / `UnmarkForDeletion`)
+
+A state node exists under a provider id while cluster state holds its Node or its NodeClaim; the mark lives on the state
+node: it survives every update and the loss of ONE half, and is gone with the state node.  One call names SEVERAL provider
+ids (the disruption queue marks all candidates of a command at once); ids without a state node are skipped. -/
+
+structure MNode where
+  id : String
+  node : Bool
+  claim : Bool
+  marked : Bool
+deriving Repr, DecidableEq
+
+abbrev MarkSt := List MNode
+
+inductive MarkEv
+  | seeNode (id : String)
+  | seeClaim (id : String)
+  | delNode (id : String)
+  | delClaim (id : String)
+  | mark (ids : List String)
+  | unmark (ids : List String)
+deriving Repr
+
+def MarkSt.tracked (s : MarkSt) (id : String) : Bool := s.any (fun n => n.id == id)
+def MarkSt.marked (s : MarkSt) (id : String) : Bool := s.any (fun n => n.id == id && n.marked)
+/-- `StateNodes.Active` / `Deleting` -/
+def MarkSt.active (s : MarkSt) : List String := (s.filter (fun n => !n.marked)).map (·.id)
+def MarkSt.deleting (s : MarkSt) : List String := (s.filter (fun n => n.marked)).map (·.id)
+
+/-- the loop body of `MarkForDeletion` / `UnmarkForDeletion` for one id: an id without a state node changes nothing -/
+def setMark (b : Bool) (s : MarkSt) (id : String) : MarkSt := s.map (fun n => if n.id == id then { n with marked := b } else n)
+
+def markStep (s : MarkSt) : MarkEv → MarkSt
+  | .seeNode id => if s.tracked id then s.map (fun n => if n.id == id then { n with node := true } else n)
+                   else s ++ [{ id := id, node := true, claim := false, marked := false }]
+  | .seeClaim id => if s.tracked id then s.map (fun n => if n.id == id then { n with claim := true } else n)
+                    else s ++ [{ id := id, node := false, claim := true, marked := false }]
+  | .delNode id => (s.map (fun n => if n.id == id then { n with node := false } else n)).filter (fun n => n.node || n.claim)
+  | .delClaim id => (s.map (fun n => if n.id == id then { n with claim := false } else n)).filter (fun n => n.node || n.claim)
+  | .mark ids => ids.foldl (setMark true) s
+  | .unmark ids => ids.foldl (setMark false) s
 
 end Karp.Provision
